@@ -228,6 +228,11 @@ func c01CheckCLI(c c01CLI, st *stats.Run) error {
 		stdin = plain
 	} else {
 		args = append(args, "-o", "out.age", "in.dat")
+		if (c.PlainLen+len(c.Recs))%2 == 0 {
+			// the output file exists already and is longer than the result will be
+			os.WriteFile(filepath.Join(dir, "out.age"), bytes.Repeat([]byte("previous content\n"), 20000), 0o644)
+			st.Label("cli:output-exists-and-is-longer")
+		}
 	}
 	st.Case(len(c.Recs) >= 2 || c.PlainLen >= chunk, stats.HashJSON(c), "cli", "cli:mix="+hx.KindsOf(c.Recs), fmt.Sprintf("cli:armor=%v", c.Armor), fmt.Sprintf("cli:stdin=%v", c.Stdin), "cli:via="+strings.Join(c.Via, ""), "cli:"+chunkLabel(c.PlainLen))
 	st.Sample("cli", c)
